@@ -10,6 +10,7 @@ import (
 	"time"
 
 	"github.com/tsuna/gohbase"
+	"github.com/tsuna/gohbase/hrpc"
 	"pgregory.net/rapid"
 
 	"verifharness/evid"
@@ -29,6 +30,10 @@ type c08cCase struct {
 	// Probe: rows requested afterwards (each with a 2 s deadline); Kill: the connections break first
 	Probe []evid.B `json:"probe"`
 	Kill  bool     `json:"kill"`
+	// WarmScan: after the warm-up gets the whole table is scanned ("scan" forward, "rscan" reversed from a
+	// drawn start row): scans discover regions too, and walk from region to region by their cached keys
+	WarmScan  string `json:"warm_scan,omitempty"`
+	ScanStart evid.B `json:"scan_start,omitempty"`
 }
 
 func c08cRun(c c08cCase) Outcome {
@@ -65,6 +70,18 @@ func c08cInBubble(c c08cCase) (out Outcome) {
 	l := layoutSpec{Table: "t", Bounds: c.Bounds, NServers: 2}
 	cl := l.build()
 	cl.MinLatency = time.Millisecond
+	var scanRows []sim.ScanRow
+	for _, k := range c.Warm {
+		dup := false
+		for _, r := range scanRows {
+			dup = dup || bytes.Equal(r.Key, k)
+		}
+		if !dup && len(k) > 0 {
+			scanRows = append(scanRows, sim.ScanRow{Key: k, Cells: 1})
+		}
+	}
+	sort.Slice(scanRows, func(i, j int) bool { return bytes.Compare(scanRows[i].Key, scanRows[j].Key) < 0 })
+	cl.ScanHandler = sim.NewScanServer(scanRows, nil).Handle
 	client := newSimClient(cl)
 	defer func() {
 		client.Close()
@@ -75,6 +92,47 @@ func c08cInBubble(c c08cCase) (out Outcome) {
 		if err, cerr := doOp(client, context.Background(), "t", opSpec{Kind: "get", Key: k, Marker: fmt.Sprintf("mkw%d", i)}); err != nil || cerr != nil {
 			return viol("harness", "warm-up: %v %v", err, cerr)
 		}
+	}
+	if c.WarmScan != "" {
+		var sopts []func(hrpc.Call) error
+		var start []byte
+		if c.WarmScan == "rscan" {
+			sopts = append(sopts, hrpc.Reversed())
+			start = c.ScanStart
+		}
+		ctx, cancel := context.WithTimeout(context.Background(), time.Minute)
+		scan, _ := hrpc.NewScanRange(ctx, []byte("t"), start, nil, sopts...)
+		sc := client.Scan(scan)
+		for n := 0; n < 1000; n++ {
+			if _, err := sc.Next(); err != nil {
+				break
+			}
+		}
+		sc.Close()
+		cancel()
+		out.Labels = append(out.Labels, "warm_"+c.WarmScan)
+	}
+	// what the cache holds is what hbase:meta said: name, start and stop key of every cached region are those
+	// of the cluster's region of that name (nothing has changed in the cluster so far)
+	for _, r := range gohbase.VerifCachedRegions(client) {
+		if string(r.Table()) != "t" {
+			continue
+		}
+		var sr *sim.Region
+		for _, x := range cl.TableRegions("t") {
+			if bytes.Equal(x.Name, r.Name()) {
+				sr = x
+			}
+		}
+		if sr == nil {
+			return viol("cached-region-unknown", "the cache holds region %q which hbase:meta never listed", r.Name())
+		}
+		if !bytes.Equal(sr.Start, r.StartKey()) || !bytes.Equal(sr.Stop, r.StopKey()) {
+			return viol("cached-range-changed", "cached region %q has range [%q, %q); hbase:meta listed it as [%q, %q) (warm-up: gets %q, %s from %q)", r.Name(), r.StartKey(), r.StopKey(), sr.Start, sr.Stop, c.Warm, c.WarmScan, c.ScanStart)
+		}
+	}
+	if o := c08cNoOverlap(client); o.Sig != "" {
+		return o
 	}
 	regs := cl.TableRegions("t")
 	from, to := c.From%len(regs), c.To%len(regs)
@@ -145,14 +203,8 @@ func c08cInBubble(c c08cCase) (out Outcome) {
 			return viol("newer-region-evicted", "cached region %q (newer than what hbase:meta lists now, %q) is gone from the cache or marked dead after requests for rows %q: %v (before: %v)", n, older.Name, c.Probe, after, before)
 		}
 	}
-	// no two cached regions of the table overlap
-	cached := gohbase.VerifCachedRegions(client)
-	for i, a := range cached {
-		for _, b := range cached[i+1:] {
-			if string(a.Table()) == "t" && string(b.Table()) == "t" && rangesOverlap(a.StartKey(), a.StopKey(), b.StartKey(), b.StopKey()) {
-				return viol("cache-overlap", "cached regions %q and %q overlap", a.Name(), b.Name())
-			}
-		}
+	if o := c08cNoOverlap(client); o.Sig != "" {
+		return o
 	}
 	out.NonTrivial = overlapsCached
 	if overlapsCached {
@@ -162,6 +214,19 @@ func c08cInBubble(c c08cCase) (out Outcome) {
 		out.Labels = append(out.Labels, "older_region_spans_several")
 	}
 	return out
+}
+
+// c08cNoOverlap: no two cached regions of table t overlap.
+func c08cNoOverlap(client gohbase.Client) Outcome {
+	cached := gohbase.VerifCachedRegions(client)
+	for i, a := range cached {
+		for _, b := range cached[i+1:] {
+			if string(a.Table()) == "t" && string(b.Table()) == "t" && rangesOverlap(a.StartKey(), a.StopKey(), b.StartKey(), b.StopKey()) {
+				return viol("cache-overlap", "cached regions %q [%q, %q) and %q [%q, %q) overlap", a.Name(), a.StartKey(), a.StopKey(), b.Name(), b.StartKey(), b.StopKey())
+			}
+		}
+	}
+	return Outcome{}
 }
 
 func rangesOverlap(as, ae, bs, be []byte) bool {
@@ -179,7 +244,7 @@ func TestC08_ClientDiscovery(t *testing.T) {
 	theT = t
 	rec := evid.New("C08", "TestC08_ClientDiscovery",
 		"rapid, virtual time, whole client against the simulated cluster: a table of 1..6 regions (ids 1000+i), some of them used "+
-			"(cached); then hbase:meta lists ONE older region (id below 1000) over the ranges of 1..n neighbouring regions (a table "+
+			"(cached) by gets and optionally by a forward or reversed whole-table scan - after which every cached region must have the name and the range hbase:meta listed, and none overlap; then hbase:meta lists ONE older region (id below 1000) over the ranges of 1..n neighbouring regions (a table "+
 			"restored from a snapshot), optionally all connections break, and rows inside and around that range are requested with a "+
 			"deadline. Oracle on the client's cache (hook VerifCachedRegions): the older region is not admitted while it overlaps a "+
 			"newer cached region, the newer cached regions stay cached and alive, no two cached regions overlap. Non-trivial = the "+
@@ -205,6 +270,13 @@ func TestC08_ClientDiscovery(t *testing.T) {
 			}
 		}
 		c.Kill = rapid.Bool().Draw(t, "kill")
+		c.WarmScan = rapid.SampledFrom([]string{"", "scan", "rscan", "rscan"}).Draw(t, "warmscan")
+		if c.WarmScan == "rscan" {
+			c.ScanStart = append(evid.B{}, genKeyFor(t, lay)...)
+			if len(c.ScanStart) == 0 || rapid.Bool().Draw(t, "fromend") {
+				c.ScanStart = evid.B("\xff\xff\xff")
+			}
+		}
 		return c
 	}, c08cRun)
 }
